@@ -43,6 +43,19 @@ impl DD {
     pub fn abs(self) -> DD { if self.0 < 0.0 || (self.0 == 0.0 && self.1 < 0.0) { self.neg() } else { self } }
     /// natural log by one Newton step on exp (enough for ~1e-30 relative when |x| moderate)
     pub fn ln(self) -> DD {
+        // rescale extreme arguments so that exp(-y0) below stays finite
+        if self.0 > 0.0 && self.0 < 1e-290 {
+            let k = 600.0f64;
+            let ln2 = DD(0.6931471805599453, 2.3190468138462996e-17);
+            let sc = DD(self.0 * (2.0f64).powi(600), self.1 * (2.0f64).powi(600));
+            return sc.ln().sub(ln2.mul(DD::from(k)));
+        }
+        if self.0 > 1e290 {
+            let k = 600.0f64;
+            let ln2 = DD(0.6931471805599453, 2.3190468138462996e-17);
+            let sc = DD(self.0 * (2.0f64).powi(-600), self.1 * (2.0f64).powi(-600));
+            return sc.ln().add(ln2.mul(DD::from(k)));
+        }
         let y0 = self.0.ln();
         // y1 = y0 + (x*exp(-y0) - 1)
         let e = DD::exp(DD::from(-y0));
